@@ -33,7 +33,7 @@ SUB_KINDS = ["exit1", "stderr_error", "garbage", "kill_parent_after", "kill_pare
 Q_KINDS = ["exit1", "stderr_error", "garbage"]
 
 
-QUICK_BUDGET = {"cases": 560, "deadline_s": 110, "case_timeout_s": 120, "floors": {"faults_injected": 430, "second_runs_checked": 380, "kill_points": 100, "write_kills": 40}}
+QUICK_BUDGET = {"cases": 560, "deadline_s": 170, "case_timeout_s": 120, "floors": {"faults_injected": 196, "second_runs_checked": 196, "kill_points": 42, "write_kills": 40}}
 THOROUGH_FACTOR = 12  # thorough = the same workload with 12x the cases (floors scale along)
 
 
